@@ -5,6 +5,7 @@
   tools/mutate.py filter [--sample N] [--seed S]   keep mutants that still import and pass the 129 stable tests -> survivors.json
   tools/mutate.py kill [--limit N]            run the quick checks of the properties anchored in the mutated file (+ C07, C12)
                                               against each survivor; -> results.json, table on stdout
+  tools/mutate.py second C20,C14              run further checks on first-pass survivors (a mutant of consumer.py may only show in the CLI)
   tools/mutate.py report                      summary of results.json
 
 Mutation operators (located with `ast`, applied as text edits so that everything else stays byte-identical):
@@ -356,6 +357,33 @@ def cmd_kill(argv):
     cmd_report([])
 
 
+def cmd_second(argv):
+    """tools/mutate.py second C20,C14[,...]: run further checks on the mutants that survived the first pass."""
+    extra_ids = argv[0].split(",")
+    muts = {m["id"]: m for m in json.load(open(os.path.join(OUT, "survivors.json")))}
+    rp = os.path.join(OUT, "results.json")
+    res = json.load(open(rp))
+    for mid, r in res.items():
+        if r["killed_by"] or mid not in muts:
+            continue
+        todo = [c for c in extra_ids if c not in r["checks"]]
+        if not todo:
+            continue
+        base, copy = make_copy(muts[mid])
+        try:
+            for pid in todo:
+                p = subprocess.run(["./check", pid, "quick"], cwd=VERIF, env=dict(os.environ, VERIF_REPO=copy), capture_output=True, text=True)
+                r["checks"][pid] = p.returncode
+                if p.returncode == 1:
+                    r["killed_by"] = [pid]
+                    break
+        finally:
+            shutil.rmtree(base, ignore_errors=True)
+        json.dump(res, open(rp, "w"), indent=0)
+        print(mid, r["file"].split("/")[-1], r["line"], r["op"], ("KILLED by " + r["killed_by"][0]) if r["killed_by"] else "still survives", "|", r["what"][:70], flush=True)
+    cmd_report([])
+
+
 def cmd_report(argv):
     res = json.load(open(os.path.join(OUT, "results.json")))
     k = sum(1 for r in res.values() if r["killed_by"])
@@ -367,4 +395,4 @@ def cmd_report(argv):
 
 
 if __name__ == "__main__":
-    {"gen": cmd_gen, "filter": cmd_filter, "kill": cmd_kill, "report": cmd_report}[sys.argv[1]](sys.argv[2:])
+    {"gen": cmd_gen, "filter": cmd_filter, "kill": cmd_kill, "second": cmd_second, "report": cmd_report}[sys.argv[1]](sys.argv[2:])
